@@ -14,6 +14,7 @@
    bit-exactly validated design/prototypes/median_reference.py. *)
 From Coq Require Import ZArith List Bool.
 From Centro Require Import Base.Sx Gen.MedianConstC07.
+From Centro Require Model.VecC18 Model.RankC18.
 Import ListNotations.
 Open Scope Z_scope.
 
@@ -339,14 +340,34 @@ Definition map_img {A B C} (f : A -> B -> C) (a : list (list A)) (b : list (list
 
 Inductive wres : Type :=
 | WOut (ranked : bool) (o : list (list Z))   (* the returned array, and whether rank_order was applied *)
-| WDecline                      (* more than 255 distinct values: rank_order's decimation is not modelled *)
+| WDecline                      (* a recorded np.argsort(hist) is not admissible / fuel ran out *)
 | WIndexError.                  (* translation[output] with an output beyond the table *)
+
+(* input[mask] = ranked_data: the ranks, listed in raster order of the masked pixels, back in place *)
+Fixpoint fill_row (m : list bool) (vals : list Z) : list Z * list Z :=
+  match m with
+  | [] => ([], vals)
+  | b :: r =>
+      if b then
+        let '(row, rest) := fill_row r (tl vals) in (hd 0 vals :: row, rest)
+      else
+        let '(row, rest) := fill_row r vals in (0 :: row, rest)
+  end.
+Fixpoint fill_img (mask : list (list bool)) (vals : list Z) : list (list Z) :=
+  match mask with
+  | [] => []
+  | m :: ms => let '(row, rest) := fill_row m vals in row :: fill_img ms rest
+  end.
 
 (* intlike = np.issubdtype(data.dtype, int), observed by the harness.  The direct path is taken
    when the MASKED pixels are integers in 0..255 (np.min(data[mask]) < 0 or np.max(data[mask]) > 255
-   — /repo commit 229a88d; before it the test looked at the whole array). *)
-Definition wrapper (v : variant) (intlike : bool) (data : list (list Z)) (mask : list (list bool))
-           (radius percent : Z) : wres :=
+   — /repo commit 229a88d; before it the test looked at the whole array).
+   [orders] are the results of np.argsort(hist) inside rank_order's decimation loop, recorded from
+   the implementation (NumPy's default sort is not stable): with more than 255 distinct masked
+   values the ranks and the translation table are those of b18's proven model
+   Model.RankC18.rank_order_bins_with, which accepts any admissible order. *)
+Definition wrapper (v : variant) (intlike : bool) (orders : list (list nat)) (data : list (list Z))
+           (mask : list (list bool)) (radius percent : Z) : wres :=
   if forallb (forallb negb) mask then WOut false data else
   let mv := masked_vals data mask in
   let pass := intlike && forallb (fun x => (0 <=? x) && (x <=? 255)) mv in
@@ -354,7 +375,16 @@ Definition wrapper (v : variant) (intlike : bool) (data : list (list Z)) (mask :
     WOut false (kernel v (map_img (fun d (m : bool) => if m then d else 0) data mask) mask radius percent)
   else
     let u := sort_u mv in
-    if (255 <? length u)%nat then WDecline else
+    if (255 <? length u)%nat then
+      match RankC18.rank_order_bins_with (RankC18.replay_oracle orders) (VecC18.argsort mv) mv 255 with
+      | None => WDecline
+      | Some (r, tr) =>
+          let o8 := kernel v (fill_img mask (map Z.of_nat r)) mask radius percent in
+          if forallb (forallb (fun x => x <? Z.of_nat (length tr))) o8
+          then WOut true (map (map (fun x => nth (Z.to_nat x) tr 0)) o8)
+          else WIndexError
+      end
+    else
     let input := map_img (fun d (m : bool) => if m then Z.of_nat (index_of d u) else 0) data mask in
     let o8 := kernel v input mask radius percent in
     if forallb (forallb (fun x => x <? Z.of_nat (length u))) o8
@@ -369,9 +399,11 @@ Definition as_variant (x : sx) : variant := if as_Z x =? 0 then AsIs else Fixed.
 Definition entry_kernel (x : sx) : sx :=
   of_Zss (kernel (as_variant (arg 0 x)) (as_Zss (arg 1 x)) (as_boolss (arg 2 x)) (as_Z (arg 3 x)) (as_Z (arg 4 x))).
 
-(* (variant intlike data mask radius percent) -> (0 out ranked) | (1) declined | (2) IndexError *)
+Definition as_orders (x : sx) : list (list nat) := map (fun o => map as_nat (as_list o)) (as_list x).
+
+(* (variant intlike data mask radius percent orders) -> (0 out ranked) | (1) declined | (2) IndexError *)
 Definition entry_wrapper (x : sx) : sx :=
-  match wrapper (as_variant (arg 0 x)) (as_bool (arg 1 x)) (as_Zss (arg 2 x)) (as_boolss (arg 3 x))
+  match wrapper (as_variant (arg 0 x)) (as_bool (arg 1 x)) (as_orders (arg 6 x)) (as_Zss (arg 2 x)) (as_boolss (arg 3 x))
                 (as_Z (arg 4 x)) (as_Z (arg 5 x)) with
   | WOut b o => L [I 0; of_Zss o; of_bool b]
   | WDecline => L [I 1]
